@@ -95,6 +95,8 @@ def obj_name(src):
 def build(flavour="asan", harness=(), cli=False, extra_defs="", tag=None, quiet=True):
     """Build libyara.a (+ harness binaries, + CLI) for a flavour. Returns dict of paths."""
     name = flavour if not tag else "%s-%s" % (flavour, tag)
+    if os.path.realpath(REPO) != "/repo":          # scratch copies get their own object directory (no stale objects)
+        name += "-" + hashlib.sha1(os.path.realpath(REPO).encode()).hexdigest()[:8]
     bdir = os.path.join(BUILD, name)
     os.makedirs(os.path.join(bdir, "o"), exist_ok=True)
     os.makedirs(os.path.join(bdir, "bin"), exist_ok=True)
